@@ -116,6 +116,15 @@ class Engine(object):
             self.classes.update(getattr(mod, "CLASSES", {}))
             self.inline |= set(getattr(mod, "INLINE", ()))
             self.lemmas.update(getattr(mod, "LEMMAS", {}))
+        if self.timeout_ms > 10000:
+            # thorough tier: contracts may name a larger finite domain (more notes, entries, bars) for their case split
+            for k, v in self.contracts.items():
+                if v.get("split_thorough"):
+                    v["split"] = v["split_thorough"]
+                if v.get("cases_thorough"):
+                    v["cases"] = v["cases_thorough"]
+                if v.get("requires_thorough"):
+                    v["requires"] = v["requires_thorough"]
 
     def rebound_globals(self, modname):
         """names a function of the module rebinds through a `global` statement"""
